@@ -159,6 +159,9 @@ func TestC11Stream(t *testing.T) {
 				if len(r.streams) >= 3 {
 					t.Skip("enough streams")
 				}
+				if len(r.streams) >= len(addrs) {
+					t.Skip("enough streams")
+				}
 				if !r.pollPut() {
 					t.Skip("a put is still waiting: the head at open would be ambiguous")
 				}
@@ -277,6 +280,80 @@ func TestC11Stream(t *testing.T) {
 					}
 				}
 			},
+			"reconnect": func(t *rapid.T) {
+				// the client of a live stream connects again while a send to its first connection is still pending: the new
+				// stream takes over (same callback id), the old one returns; what the old one still does must not hurt the new one
+				if len(r.streams) >= 4 || r.putBusy != nil || !canPut() || puts >= 14 {
+					t.Skip("no room")
+				}
+				var old *streamCtl
+				for _, s := range r.streams {
+					s.mu.Lock()
+					reg := s.registered
+					s.mu.Unlock()
+					if !s.ended && reg && s.ctx.Err() == nil {
+						old = s
+					}
+				}
+				if old == nil {
+					t.Skip("no live stream")
+				}
+				// run the old stream to quiescence, then store a beacon so that its callback worker sits in a Send
+				for i := 0; i < 50 && !old.ended; i++ {
+					if st := r.step(old, i, nil); st == "idle" || st == "ended" {
+						break
+					}
+				}
+				if old.ended || !r.put() {
+					t.Skip("old stream ended")
+				}
+				puts++
+				r.await(old)
+				if old.parkedAt("send") < 0 {
+					t.Skip("old stream has no pending send")
+				}
+				from := uint64(0)
+				if rapid.Bool().Draw(t, "fromHead") {
+					from = r.head
+				}
+				nw := r.open(old.addr, from)
+				for i := 0; i < 60 && !nw.ended; i++ {
+					nw.mu.Lock()
+					reg := nw.registered
+					nw.mu.Unlock()
+					if reg {
+						break
+					}
+					r.step(nw, 0, nil)
+				}
+				r.await(old)
+				hist = append(hist, fmt.Sprintf("reconnect(s%d->s%d,from=%d,old-ended=%v)", old.id, nw.id, from, old.ended))
+				flags["reconnect"] = true
+				flags["reconnect-with-pending-send"] = true
+			},
+			"lateSend": func(t *rapid.T) {
+				// a stream has returned (replaced by a re-connect of the same client, or ended by an error) while its callback worker
+				// still sits in a Send: that send now completes or fails (the client's connection is gone)
+				var cand *streamCtl
+				for _, s := range r.streams {
+					if s.ended {
+						r.collectLate(s)
+						if s.parkedAt("send") >= 0 {
+							cand = s
+						}
+					}
+				}
+				if cand == nil {
+					t.Skip("no ended stream with a pending send")
+				}
+				var err error
+				if rapid.Bool().Draw(t, "fails") {
+					err = errSend
+				}
+				r.step(cand, cand.parkedAt("send"), err)
+				hist = append(hist, fmt.Sprintf("lateSend(s%d,err=%v)", cand.id, err != nil))
+				flags["late-send-of-ended-stream"] = true
+			},
 			"cancel": func(t *rapid.T) {
 				if len(r.streams) == 0 {
 					t.Skip("no stream")
@@ -302,12 +379,43 @@ func TestC11Stream(t *testing.T) {
 			}
 			r.pollPut()
 		}
-		for _, s := range r.streams {
-			for i := 0; i < 400 && !s.ended; i++ {
-				if st := r.step(s, i, nil); st == "idle" || st == "ended" {
-					break
+		finalPut := uint64(0)
+		runAll := func() {
+			for _, s := range r.streams {
+				for i := 0; i < 400 && !s.ended; i++ {
+					if st := r.step(s, i, nil); st == "idle" || st == "ended" {
+						break
+					}
 				}
 			}
+		}
+		runAll()
+		// pending sends of streams that have already returned fail now (their clients are gone) ...
+		late := 0
+		for _, s := range r.streams {
+			if s.ended {
+				r.collectLate(s)
+				for s.parkedAt("send") >= 0 {
+					r.step(s, s.parkedAt("send"), errSend)
+					late++
+				}
+			}
+		}
+		// ... and one more beacon is stored: every stream that is still alive must get it
+		if late > 0 && r.putBusy == nil && canPut() {
+			if r.put() {
+				finalPut = r.putRound
+				hist = append(hist, fmt.Sprintf("late-sends-failed(%d)+put(%d)", late, r.putRound))
+			}
+			for i := 0; i < 200 && r.putBusy != nil; i++ {
+				for _, s := range r.streams {
+					if !s.ended {
+						r.step(s, 0, nil)
+					}
+				}
+				r.pollPut()
+			}
+			runAll()
 		}
 		hist = append(hist, "drain")
 		checkAll()
@@ -318,6 +426,15 @@ func TestC11Stream(t *testing.T) {
 			s.mu.Lock()
 			sent := append([]uint64(nil), s.sent...)
 			s.mu.Unlock()
+			if finalPut > 0 && s.from == 0 {
+				// a live-only stream that was registered before the last beacon was stored must have received that beacon
+				s.mu.Lock()
+				reg := s.registered
+				s.mu.Unlock()
+				if reg && (len(sent) == 0 || sent[len(sent)-1] != r.head) {
+					fail("C11/live-stream-misses-new-round", fmt.Sprintf("stream %d (live only) is registered, alive and quiescent, round %d was stored after its registration, but it delivered %v", s.id, r.head, sent))
+				}
+			}
 			if s.startRead && !s.ambiguousStart && s.from >= 1 && s.from <= s.headAtOpen {
 				if len(sent) == 0 || sent[len(sent)-1] != r.head {
 					last := "nothing"
